@@ -17,6 +17,12 @@ type PHCheckResponse struct {
 	// so that the calling goroutine can validate the proposed header signature.
 	ProposerPubKey gcrypto.PubKey
 
+	// If the status is PHCheckAcceptable, this is the validator set
+	// of the view the proposed header belongs to,
+	// i.e. the set the header must name as its own validator set.
+	// This value must not be modified.
+	ValidatorSet tmconsensus.ValidatorSet
+
 	// If the status is PHCheckAcceptable -- which can only happen when
 	// the proposed header matches the voting or committing heights --
 	// this is the hash of the previous block.
